@@ -11,7 +11,7 @@ EXHAUSTIVE = {"quick": "all 700 datasets of <=2 rankings over 3 elements x 7 Bio
               "thorough": "quick + all 18275 (<=3 rankings, 3 elements) and 22648 (4 elements) datasets for default/BioCo"}
 ASSUMPTIONS = ["threshold experiments use unit 1024 (penalties are multiples of 1/1024: gains of 1/1024 may remain, "
                "2/1024 may not)", "move-by-move conformance with spec/LocalSearch.tla is in the un-jitted twin stage"]
-BIO = ["BioConsert", "BioCo", "Bio[Borda]", "Bio[Copeland,KwikSort]", "Bio[PickAPerm]", "Bio[PickAPerm,Copeland]",
+BIO = ["BioConsert", "Bio[]", "BioCo", "Bio[Borda]", "Bio[Copeland,KwikSort]", "Bio[PickAPerm]", "Bio[PickAPerm,Copeland]",
        "Bio[Borda,Copeland,KwikSort]", "Bio[Borda,BordaBid]"]
 SCHEMES = [ac.P_UNI5, ac.P_IND1, ac.P_PSE5, ac.P_UNI1, ac.P_EXT, ac.P_IND5, ac.QUARTER]
 # unit 1024: B[1] = 1024 (=1.0), ties cost 1.0 +- 1/1024, 2/1024
